@@ -38,7 +38,7 @@ class Rule:
         self.findings.append({'property': self.ctx.pid, 'rule': self.id, 'construct': construct,
                               'tag': tag, 'key': key, 'what': what, 'where': w,
                               'stmt': src(node) if node is not None else None,
-                              'witness': witness, 'origin': getattr(node, '_origin', None)})
+                              'witness': witness, 'origin': getattr(node, '_origin', None), 'fn': getattr(fn, 'qualname', None)})
 
     def note(self, construct, text, fn=None, node=None):
         self.notes.append({'construct': construct, 'note': text, 'where': self._where(fn, node)})
